@@ -131,7 +131,14 @@ def stage_tables(ctx):
                               'order_source': m['order_source'], 'digits': m['digits'], 'err_order': m['err_order']}
                           for n, m in methods.items()}
     files = [('C12_tab_%s' % n, TT.HEADER + TT.coq_method(m)) for n, m in methods.items()]
-    for (name, ok, out), (n, m) in zip(ctx.coq_eval_many(files), methods.items()):
+    # all tables in one file first (one Coq start-up); per-method files only to attribute a failure
+    ok_all, out_all = ctx.coq_eval('C12_tables', TT.HEADER + '\n'.join(TT.coq_method(m) for m in methods.values()))
+    ctx.checker_cmds.append('cd coq && coqc -R . Verif gen/C12_tables.v')
+    if ok_all:
+        results = [(name, True, '') for name, _ in files]
+    else:
+        results = ctx.coq_eval_many(files)
+    for (name, ok, out), (n, m) in zip(results, methods.items()):
         ctx.obligations += 1
         ctx.checker_cmds.append('cd coq && coqc -R . Verif gen/%s.v' % name)
         ctx.count(('table', n))
